@@ -84,8 +84,11 @@ pub enum BodySel {
     JsonStreaming,
     Form,
     Multipart,
+    /// a form with text fields only (no file part)
+    MultipartTextOnly,
+    MultipartEmpty,
 }
-const BODIES: [BodySel; 13] = [
+const BODIES: [BodySel; 15] = [
     BodySel::None,
     BodySel::TextEmpty,
     BodySel::Text,
@@ -99,6 +102,8 @@ const BODIES: [BodySel; 13] = [
     BodySel::JsonStreaming,
     BodySel::Form,
     BodySel::Multipart,
+    BodySel::MultipartTextOnly,
+    BodySel::MultipartEmpty,
 ];
 
 #[derive(Clone, Debug, Serialize, Deserialize)]
@@ -215,6 +220,15 @@ fn send_a(c: &CaseA) -> Result<(Vec<u8>, Option<Vec<u8>>), String> {
             expected_body = None;
             let pairs = [("a", "1 2"), ("b", "&=\u{e9}"), ("a", "3")];
             rb.form(&pairs).map_err(|e| format!("form: {e}"))?.send().map_err(fail)?;
+        }
+        BodySel::MultipartTextOnly | BodySel::MultipartEmpty => {
+            expected_body = None;
+            let mut b = attohttpc::MultipartBuilder::new();
+            if c.body == BodySel::MultipartTextOnly {
+                b = b.with_text("first", "one value").with_text("second", "another, a bit longer, value with \r\n in it");
+            }
+            let form = b.build().map_err(|e| format!("multipart: {e}"))?;
+            rb.body(form).send().map_err(fail)?;
         }
         BodySel::Multipart => {
             expected_body = None;
@@ -355,7 +369,7 @@ fn check_a(c: &CaseA) -> Vec<(String, String)> {
     if req.framing == ReqFraming::None && !req.body.is_empty() {
         v.push(("framing-none".into(), "non-empty body without framing".into()));
     }
-    if matches!(c.body, BodySel::Text | BodySel::BytesAll | BodySel::File10 | BodySel::File70k | BodySel::File10Seeked | BodySel::File10AtEnd | BodySel::Json | BodySel::JsonStreaming | BodySel::Form | BodySel::Multipart)
+    if matches!(c.body, BodySel::Text | BodySel::BytesAll | BodySel::File10 | BodySel::File70k | BodySel::File10Seeked | BodySel::File10AtEnd | BodySel::Json | BodySel::JsonStreaming | BodySel::Form | BodySel::Multipart | BodySel::MultipartTextOnly | BodySel::MultipartEmpty)
         && req.framing == ReqFraming::None
     {
         v.push(("framing-none".into(), format!("{:?} body sent without Content-Length or chunked framing", c.body)));
